@@ -10,6 +10,7 @@ Init == \E k \in {"lzma", "lzma2"}, p \in PropsSet, z \in Sizes :
           /\ lastop = "new" /\ hist = <<"new">>
 Next == /\ Len(hist) <= MaxOps
         /\ \/ Decompress
+           \/ (\E p \in PropsSet, z \in Sizes : L2FirstChunk(p, z))
            \/ Reset(-1)
            \/ (kind = "lzma" /\ \E z \in Sizes : Reset(z))
 Spec == Init /\ [][Next]_vars
